@@ -83,6 +83,15 @@ from pyanalyze.boolability import get_boolability, _get_type_boolability  # noqa
 from pyanalyze.name_check_visitor import NameCheckVisitor  # noqa: E402
 from pyanalyze.implementation import len_of_value, len_transformer  # noqa: E402
 
+# exception classes repaired by a fix commit in /repo: a failing input of such a class is a *new* violation again
+FIXED_CLASSES = {"alwaysTrueWrong"}  # /repo c376956 (abstract base classes and protocols are boolable)
+
+
+def live_cls(names):
+    names = [x for x in names if x != "-" and x not in FIXED_CLASSES]
+    return names[0] if names else None
+
+
 VN = VarnameWithOrigin("x")
 OPS = {"eq": (ast.Eq, "=="), "ne": (ast.NotEq, "!="), "lt": (ast.Lt, "<"), "le": (ast.LtE, "<="), "gt": (ast.Gt, ">"),
        "ge": (ast.GtE, ">=")}
@@ -752,8 +761,7 @@ def evaluate(ctx, triples, with_model=True, replaying=False):
         model_lost = None
         if " D=" in l:
             bits, d = l.split(" D=")
-            names = [x for x in d.split(",") if x != "-"]
-            cls = names[0] if names else None
+            cls = live_cls(d.split(","))
             model_lost = bits[3] == "0"
         if model_lost is False and unmodelled(triples[i][0], triples[i][1]):
             # value-dependent protocol region (see ASSUMPTIONS): the table-driven assignability model does not apply, the
@@ -766,8 +774,7 @@ def evaluate(ctx, triples, with_model=True, replaying=False):
     for (case, o, py, b, conf), l in zip(vs, out[len(checks):]):
         cls = None
         if " D=" in l:
-            names = [x for x in l.split(" D=")[1].split(",") if x != "-"]
-            cls = names[0] if names else None
+            cls = live_cls(l.split(" D=")[1].split(","))
         ctx.candidate(dict(case, object=repr(py), obj=o, boolability=b, driver=l),
                       "get_boolability says %s but the member object %r is %s" % (b, py, "truthy" if py else "falsy"),
                       cls=cls, conforms=conf, stream="verdict")
@@ -1006,8 +1013,7 @@ def e2e(ctx, triples, impl, model, checker, with_model):
         cls = None
         l = dl[n] if n < len(dl) else ""
         if " D=" in l:
-            names = [x for x in l.split(" D=")[1].split(",") if x != "-"]
-            cls = names[0] if names else None
+            cls = live_cls(l.split(" D=")[1].split(","))
             if l[3] == "1" and unmodelled(case["V"], c):
                 ctx.tag("keeps_unclassified_protocol_region")
                 continue
